@@ -11,7 +11,7 @@ mod bi;
 mod c01;
 mod fam;
 mod ops_mul;
-mod rat;
+use sl_rat as rat;
 
 use std::io::{BufRead, Write};
 use std::panic::{catch_unwind, AssertUnwindSafe};
